@@ -193,7 +193,7 @@ func (w *world) verifyAllPages(quick bool) {
 }
 
 func run(c *rig.Ctx) {
-	c.Require("configs", "single_writes", "mbc1_triples", "sequence_writes", "pages_reread", "remap_0_to_1_cases", "modulo_cases")
+	c.Require("configs", "single_writes", "mbc1_triples", "sequence_writes", "pages_reread", "remap_0_to_1_cases", "modulo_cases", "bystander_checks")
 	var cfgs []cfg
 	for _, cart := range []uint8{0x00, 0x01, 0x02, 0x03, 0x05, 0x06, 0x0f, 0x10, 0x11, 0x12, 0x13, 0x19, 0x1a, 0x1b, 0x1c, 0x1d, 0x1e} {
 		k, _ := ref.KindOf(cart)
@@ -205,6 +205,8 @@ func run(c *rig.Ctx) {
 	c.Part("configs", int64(len(cfgs)), func(i int64, r *rig.Rng) {
 		cf := cfgs[i]
 		ramCode := r.Pick8([]uint8{0, 2, 3})
+		bystanderInit()
+		defer bystanderCheck(c, fmt.Sprintf("after cartridge type %02X with ROM size code %d was loaded and driven in the same process", cf.cart, cf.romCode))
 		w := newWorld(c, cf, ramCode)
 		if w == nil {
 			return
